@@ -296,7 +296,14 @@ def build_unit(unit_dir, out_path, mutate=None, neg_control=False, bodies=None):
             from .splice import FnSpec as _FnSpec
             if sfs is None:
                 sfs = _FnSpec(p.fnpath)
-            sfs.clauses = [c for c in sfs.clauses if c.kind in hdr_kinds and not (c.kind == "attr" and "exec_allows_no_decreases" in c.text)]
+            # `summary` = assumed summary of an interior-mutable (&self) effect: an `ensures` of the stub only
+            summ = []
+            for c in sfs.clauses:
+                if c.kind == "summary":
+                    c2 = copy.copy(c)
+                    c2.kind = "ensures"
+                    summ.append(c2)
+            sfs.clauses = [c for c in sfs.clauses if c.kind in hdr_kinds and not (c.kind == "attr" and "exec_allows_no_decreases" in c.text)] + summ
             ext = Clause("attr", "_stub", [], "#[verifier::external_body]", {}, 0)
             ext.full_id = None
             sfs.clauses = [ext] + sfs.clauses
